@@ -408,6 +408,62 @@ func runC15(w *World, r *Report) {
 		r.ok("make-size-not-negative", "none", "-", "no slice is made with a subtracted size in the request-handling packages")
 	}
 
+	// a slice is grown by append, not by re-slicing past its length: x[:len(x)+1] is legal only while capacity is left,
+	// and capacity is eaten by every x = x[1:] elsewhere
+	r.rule("slice-not-extended-past-its-length", "no re-slice x[:len(x)+c] (c > 0) of a slice without a dominating test of cap(x) on the path", 0)
+	nExt := 0
+	for _, fn := range append(append([]*ssa.Function{}, fns...), w.RepoFuncs("accountant", "cache", "webhooks", "wallet", "spice", "transaction")...) {
+		instrsOf(fn, func(in ssa.Instruction) {
+			sl, ok := in.(*ssa.Slice)
+			if !ok || sl.High == nil {
+				return
+			}
+			if _, isSlice := sl.X.Type().Underlying().(*types.Slice); !isSlice {
+				return
+			}
+			p, off, isLen := lenExpr(sl.High)
+			if !isLen || off <= 0 || p != pathOf(sl.X) {
+				return
+			}
+			nExt++
+			guarded := false
+			for _, b := range fn.Blocks {
+				if len(b.Instrs) == 0 {
+					continue
+				}
+				iff, isIf := b.Instrs[len(b.Instrs)-1].(*ssa.If)
+				if !isIf || !b.Dominates(sl.Block()) {
+					continue
+				}
+				mentionsCap := false
+				var scan func(v ssa.Value, d int)
+				scan = func(v ssa.Value, d int) {
+					if v == nil || d > 4 {
+						return
+					}
+					switch x := v.(type) {
+					case *ssa.BinOp:
+						scan(x.X, d+1)
+						scan(x.Y, d+1)
+					case *ssa.Call:
+						if bi, ok := x.Call.Value.(*ssa.Builtin); ok && bi.Name() == "cap" && pathOf(x.Call.Args[0]) == p {
+							mentionsCap = true
+						}
+					}
+				}
+				scan(iff.Cond, 0)
+				if mentionsCap {
+					guarded = true
+				}
+			}
+			r.check(guarded, "slice-not-extended-past-its-length", shortFn(fn)+"/"+p, lineOf(w, sl), "capacity is tested before the slice is extended in place",
+				fmt.Sprintf("%s is re-sliced to len+%d without a test of cap(%s): it panics (slice bounds out of range) once the capacity is used up", p, off, p))
+		})
+	}
+	if nExt == 0 {
+		r.ok("slice-not-extended-past-its-length", "none", "-", "no slice is extended by re-slicing past its length")
+	}
+
 	// no request ends the process through the fatal logger (in the node binary Fatal panics on a goroutine of its own:
 	// no interceptor could contain it)
 	r.rule("no-fatal-on-request-paths", "Logger.Fatal is not called in any function reachable from an RPC handler (static calls, function literals, go statements, and every repo implementation of an interface method that is invoked); fatal exits belong to start-up and to the background loops", 1)
